@@ -123,6 +123,33 @@ def corrupt_copy_from(run):
     return None
 
 
+def corrupt_quiesce_dup_id(run):
+    """two accepted records of the stress round share one id (the later insert overwrote the earlier one)"""
+    for e in run:
+        if e.get("op") == "as_quiesce" and len(e["puts"]) >= 2 and not e["removed"]:
+            e["puts"][1]["id"] = e["puts"][0]["id"]
+            return run
+    return None
+
+
+def corrupt_quiesce_len(run):
+    """len() one short at quiescence"""
+    for e in run:
+        if e.get("op") == "as_quiesce" and e["len"] >= 1:
+            e["len"] -= 1
+            return run
+    return None
+
+
+def corrupt_quiesce_bytes(run):
+    """an accepted record reads back as another task's bytes at quiescence"""
+    for e in run:
+        if e.get("op") == "as_quiesce" and len(e["puts"]) >= 2 and e["final"][0]["ok"] and e["final"][0]["d"] != e["final"][-1]["d"]:
+            e["final"][0]["d"] = e["final"][-1]["d"]
+            return run
+    return None
+
+
 def _files(s):
     return sorted(glob.glob(os.path.join(s["_out"], "*.ndjson")))
 
@@ -159,7 +186,8 @@ def run_ext(ctx):
     s_fy = ctx.harness(BIN, "yield", "ext_yield", timeout=300, extra={"grace_ms": GRACE_MS})
     s_io = ctx.harness(BIN, "aio", "ext_aio", timeout=300)
     s_as = ctx.harness(BIN, "store", "ext_store", timeout=300)
-    files = _files(s_st) + _files(s_bc) + _files(s_fy) + _files(s_io)
+    s_aq = ctx.harness(BIN, "storeq", "ext_storeq", timeout=600)
+    files = _files(s_st) + _files(s_bc) + _files(s_fy) + _files(s_io) + _files(s_aq)
     ctx.validate(TRACE, files, what="pipeline / collector / fiber / file-I/O run")
     ctx.validate(TRACE_STORE, _files(s_as), what="async blob store under concurrent callers")
     # ---- binding self-tests: a corrupted recorded run must be rejected
@@ -178,10 +206,18 @@ def run_ext(ctx):
     ctx.selftest_corrupt(TRACE, first_with(bc, lambda e: e.get("op") == "deliver"), corrupt_batch_dup, "a batch delivered twice by the timeout checker")
     ctx.selftest_corrupt(TRACE, fy[0], corrupt_fiber_twice, "a fiber completing twice")
     ctx.selftest_corrupt(TRACE, io[0], corrupt_read_shift, "a read returning rotated bytes")
+    aq = _files(s_aq)
+    ctx.selftest_corrupt(TRACE, first_with(aq, lambda e: e.get("op") == "as_quiesce" and len(e["puts"]) >= 2 and not e["removed"]),
+                         corrupt_quiesce_dup_id, "async store stress: one id handed out for two accepted records")
+    ctx.selftest_corrupt(TRACE, aq[0], corrupt_quiesce_len, "async store stress: len() one short at quiescence")
+    ctx.selftest_corrupt(TRACE, aq[0], corrupt_quiesce_bytes, "async store stress: an accepted record reads back with other bytes")
     ctx.selftest_corrupt(TRACE_STORE, _files(s_as)[0], corrupt_store_get, "an async store get returning another record")
     # ---- evidence
-    ev = sum(s.get("events", 0) for s in (s_st, s_bc, s_fy, s_io, s_as))
-    runs = sum(s.get("runs", 0) for s in (s_st, s_bc, s_fy, s_io, s_as))
+    ev = sum(s.get("events", 0) for s in (s_st, s_bc, s_fy, s_io, s_as, s_aq))
+    runs = sum(s.get("runs", 0) for s in (s_st, s_bc, s_fy, s_io, s_as, s_aq))
+    cov["ext_async_store_stress_rounds"] = s_aq.get("runs", 0)
+    cov["ext_async_store_stress_calls"] = s_aq.get("calls", 0)
+    cov["ext_async_store_stress_records"] = s_aq.get("records_put", 0)
     cov["ext_evaluations"] = ev
     cov["ext_runs"] = runs
     cov["ext_stream_calls"] = s_st.get("calls", 0)
@@ -198,6 +234,8 @@ def run_ext(ctx):
                        "in-flight limit 1 / n / n+1; "
                        "collect: seeded sequential add/check_timeout/flush/len histories (max 1..5, timeouts 0, 2, 8 ms, 10 s) and producers (1..3) + start_timeout_checker; "
                        "store: 1, 2, 4, 8 concurrent tasks on AsyncMemoryBlobStore / AsyncFileStore / AsyncCompressedBlobStore; "
+                       "storeq: 100 stress rounds, 2 / 4 / 8 tasks sharing one store (memory, zstd over memory, file, zstd over file) on 4 runtime threads: bursts of put, put_batch of 1 / 2 / 17 / 200, "
+                       "get, get_batch, remove, contains, len, judged at quiescence (ids pairwise distinct, every record its own bytes, len); "
                        "yield: 1..20 fibers x FiberYield / FiberYieldHandle / YieldPoint / GlobalYield x budgets 0..255; helpers of CooperativeUtils / YieldingIterator; "
                        "aio: seeded FiberFile read / read_at / seek / read_to_end / write histories on files of 0..200 bytes with read-ahead 8 B..256 KiB, copy, vectored I/O, "
                        "1..8 parallel readers of one file, FiberIoUtils; distinct = runs (each with its own seed-derived configuration)")
@@ -206,6 +244,7 @@ def run_ext(ctx):
     ctx.assumptions += [
         "an item of a BatchCollector / a yielding fiber that has not come out / completed %d ms after the last event on an otherwise quiet runtime never will" % GRACE_MS,
         "check_timeout is required to hand out pending items only when the harness itself measured at least the batch timeout since the last hand-out it saw",
+        "async store stress rounds are judged only by what was observed: the ids and bytes the calls returned while running (reads of ids the reader itself put and did not remove) and the state at quiescence after all tasks joined; no order between concurrent calls is assumed",
         "the log of the concurrent async-store run is a linearisation: an id is published to other tasks only after its put was logged; only the owner of an unpublished id removes it",
         "batches of concurrent producers are judged per batch (offered, never handed out before, distinct, size, per-producer ascending contiguous run) and for completeness at the end; "
         "the relative order of two batches drained concurrently is not observable from outside",
@@ -215,7 +254,7 @@ def run_ext(ctx):
 FAM_MODE = {"stream": "stream", "chain": "stream", "stages": "stream", "bc_seq": "collect", "bc_conc": "collect",
             "fibers": "yield", "yield_utils": "yield", "fiber_file": "aio", "fiber_file_w": "aio", "fiber_aio": "aio",
             "vectored": "aio", "par_read": "aio", "io_utils": "aio",
-            "async_mem": "store", "async_file": "store", "async_zstd_mem": "store"}
+            "async_mem": "store", "async_file": "store", "async_zstd_mem": "store", "as_stress": "storeq"}
 
 
 def replay_ext(ctx, rep):
@@ -231,6 +270,8 @@ def replay_ext(ctx, rep):
     ctx.seed = rep.get("seed", ctx.seed)
     ctx.tier = rep.get("tier", ctx.tier)
     trace = TRACE_STORE if FAM_MODE[fam] == "store" else TRACE
+    if fam == "as_stress":
+        rep = dict(rep, subject=(rep.get("subject") or "").split("@")[0])
     rec = os.path.join(ctx.work, "recorded.ndjson")
     vlib.write_ndjson(rec, rep.get("events", []))
     ctx.validate(trace, [rec], what="recorded events of the replay file")
@@ -239,3 +280,4 @@ def replay_ext(ctx, rep):
     ctx.validate(trace, _files(s), what="replay (mode %s re-run with the recorded seed)" % FAM_MODE[fam])
     ctx.cov["ext_evaluations"] = s.get("events", 1)
     return True
+
